@@ -1,8 +1,10 @@
-\* behaviour generation: n=4 unit power, 3 correct + 1 Byzantine, 3 values (one invalid), rounds 0..2,
-\* two heights (Byzantine messages up to height 3), unbounded deliveries
+\* behaviour generation: n=4, 3 correct + Byzantine validator 4; stakes 1,1,1,1 -> 2,2,2,2 -> 2,1,1,1 over
+\* heights 1..3 (thresholds change at every commit); 3 values (value 3 invalid); rounds 0..2; the
+\* Byzantine validator is proposer of (1,1), (2,0), (3,3): invalid proposals at every height
 CONSTANTS
   NV = 4
-  Power <- MCUnitPower
+  PowerOf <- MCPowerOf
+  PowerTable <- Grow4
   MaxVal = 3
   NValid = 2
   MaxRound = 2
@@ -13,12 +15,12 @@ CONSTANTS
   Corr = {1, 2, 3}
   Byz = {4}
   H0 = 1
-  MaxHeight = 2
-  MsgMaxHeight = 3
+  MaxHeight = 3
+  MsgMaxHeight = 4
   MaxRecv = 1000000
-  PropShift = 0
-  MaxSteps = 60
+  PropShift = 1
+  MaxSteps = 110
 INIT MBTInit
 NEXT MBTNext
-INVARIANTS Agreement Validity NoDoubleVote OneDecision LockRule VotesJustified
+INVARIANTS Agreement Validity NoDoubleVote OneDecision LockRule VotesJustified ThresholdsOK
 CHECK_DEADLOCK FALSE
